@@ -491,7 +491,7 @@ order_classes = _emit_order  # noqa: F811  (replaces the draft above)
 # --------------------------------------------------------------------------------------- generator
 SAFE_WORDS = ["alpha", "beta", "x y", "Hello World", "a", "zeta-9", "ÄÖ ü", "中文", "q&a", "a<b", "c>d", "it's", 'say "hi"', "]]>", "tab\there", "line\nbreak", " lead", "trail ", "  ", "", "😀", "é́"]
 UNION_SAFE_WORDS = ["alpha", "beta gamma", "Hello", "zeta-x", "q&a", "a<b", "中文"]
-LOCAL_NAMES = ["a", "b", "item", "value", "x-y", "n.m", "_u", "Élan", "data1", "Item", "ITEM", "fooBar", "foo_bar"]
+LOCAL_NAMES = ["aa", "bb", "itemz", "value", "x-z", "n.m", "_u", "Élan", "data1", "Itemz", "ITEMZ", "fooBar", "foo_bar"]  # disjoint from every name generator output of the python field names
 
 
 class Gen:
@@ -511,6 +511,7 @@ class Gen:
         self.max_fields = max_fields
         self.ns_pool = [f"urn:vf:{salt}:a", f"http://vf.test/{salt}/b", f"urn:vf:{salt}:c#frag"]
         self.used = set()
+        self.seq_counter = 0
 
     def on(self, f, p=0.5):
         return f in self.features and self.rng.random() < p
@@ -553,8 +554,8 @@ class Gen:
                     c.name_gen = rng.choice(["pascal", "camel", "kebab", "snake"])
             c.base = bases.get(name)
             m.classes.append(c)
-        for i, c in enumerate(m.classes):
-            self.fields(m, c, i, names)
+        for i in reversed(range(len(m.classes))):  # bases (larger index) first
+            self.fields(m, m.classes[i], i, names)
         self.fix_namespaces(m)
         return m
 
@@ -570,7 +571,7 @@ class Gen:
         elif base == "Decimal":
             vals = [enc_value(Decimal(x)) for x in rng.sample(["1.50", "-0.001", "1E+3", "7"], rng.randrange(2, 4))]
         else:
-            vals = [enc_value(QName(x)) for x in rng.sample([f"{{{self.ns_pool[0]}}}qa", "qb", f"{{{self.ns_pool[1]}}}qc"], 2)]
+            vals = [enc_value(QName(x)) for x in rng.sample([f"{{{self.ns_pool[0]}}}qa", f"{{{self.ns_pool[2]}}}qb", f"{{{self.ns_pool[1]}}}qc"], 2)]
         return EnumSpec(name=name, base=base, members=[(f"M{i}", v) for i, v in enumerate(vals)])
 
     def prim(self):
@@ -622,15 +623,20 @@ class Gen:
             # avoid python-name and xml-name clashes with inherited fields
             b = m.cls(c.base)
             while b:
-                self.used.update(f.name for f in b.fields)
+                for f in b.fields:
+                    self.used.update(x for x in (f.name, f.meta_name, f.wrapper) if x)
+                    self.used.update(ch.name for ch in f.choices)
                 b = m.cls(b.base) if b.base else None
         nf = rng.randrange(0 if c.base else 1, self.max_fields + 1)
         # simple content: a class with a Text field only has attributes besides it, takes no part in inheritance
         text_ok = not c.base and not any(k.base == c.name for k in m.classes)
         simple_content = text_ok and "text" in self.features and rng.random() < 0.18
         later = names[idx + 1 :]
+        inherited = [f for _, f in chain_fields(m, c)]
         have_text = False
-        has_wild = False
+        has_wild = any(f.xml == "Wildcard" for f in inherited)
+        chain_mixed = any(f.mixed for f in inherited)
+        chain_attrs = any(f.xml == "Attributes" for f in inherited)
         seq_group = None
         base_has_text = False
         b = m.cls(c.base) if c.base else None
@@ -638,6 +644,10 @@ class Gen:
         for k in range(nf):
             r = rng.random()
             fname = self.uname(rng.choice(["a", "b", "c", "val", "item", "x_y", "node", "flag", "count", "ref"]))
+            if chain_mixed:
+                r = 0.1  # a mixed wildcard in a base captures every child: only attributes may be added
+                if "attribute" not in self.features:
+                    break
             if simple_content:
                 r = 0.25 if not have_text else 0.1
                 if have_text and "attribute" not in self.features:
@@ -661,35 +671,41 @@ class Gen:
                 if f.container == "list" and rng.random() < 0.3:
                     f.mixed = True
                 has_wild = True
-            elif r < 0.45 and "attributes" in self.features and not any(x.xml == "Attributes" for x in c.fields):
+            elif r < 0.45 and "attributes" in self.features and not chain_attrs and not any(x.xml == "Attributes" for x in c.fields):
                 f = Field(fname, "Attributes", [T("prim", "str")], "default")
+                if rng.random() < 0.6:
+                    f.namespace = rng.choice(["##any", "##any", "##other", "##local"])
+                if c.nillable and f.namespace in ("##any", "##other"):
+                    f.namespace = "##local"  # xsi:nil would be captured by the map (kept out of the main population)
             else:
                 f = self.element_field(m, fname, later, names, idx)
             if f.container == "default" and f.xml not in ("Attributes",) and f.default is None:
                 f.default = self.default_for(m, f)
                 if f.default is None:
                     f.container = "opt"
-            if f.xml in ("Element",) and self.on("sequence", 0.2):
-                if seq_group is None or rng.random() < 0.3:
-                    seq_group = (seq_group or 0) + 1
+            # sequence groups: runs of adjacent Element fields, numbers unique per model (so that a group
+            # never spans unrelated fields of a base class)
+            if f.xml == "Element" and "sequence" in self.features and (seq_group is not None and rng.random() < 0.6 or rng.random() < 0.15):
+                if seq_group is None:
+                    self.seq_counter += 1
+                    seq_group = self.seq_counter
                 f.sequence = seq_group
-            elif f.xml != "Attribute":
-                seq_group = seq_group if seq_group is None else seq_group  # non-element breaks nothing in python order
+            elif f.xml not in ("Attribute", "Attributes"):
+                seq_group = None
             f.explicit_type = f.xml != "Element" or rng.random() < 0.7
             if f.meta_name is None and self.on("meta_name", 0.3) and f.xml in ("Element", "Attribute"):
                 f.meta_name = self.uname(rng.choice(LOCAL_NAMES))
             c.fields.append(f)
         # mixed content: the mixed wildcard captures every child, so it is the only element-ish field
-        if any(f.mixed for f in c.fields) and any(f.xml in ("Element", "Elements", "Text") for f in c.fields):
+        if any(f.mixed for f in c.fields) and any(f.xml in ("Element", "Elements", "Text") for f in c.fields + inherited):
             for f in c.fields:
                 f.mixed = False
-        # a class whose only untyped field would be taken as Text by default_xml_type: make types explicit
-        for f in c.fields:
-            if f.xml == "Element" and not f.explicit_type:
-                undefined = sum(1 for x in c.fields if not x.explicit_type)
-                total_inherited = 0
-                if undefined == 1:
-                    f.explicit_type = True
+        # default_xml_type: a lone untyped field would be read as Text; keep untyped Element fields only
+        # in classes outside inheritance that have at least two of them
+        untyped = [f for f in c.fields if not f.explicit_type]
+        if len(untyped) < 2 or c.base or any(k.base == c.name for k in m.classes):
+            for f in untyped:
+                f.explicit_type = True
 
     def attr_field(self, m, fname):
         rng = self.rng
@@ -721,7 +737,7 @@ class Gen:
             if self.on("tokens", 0.15) and types[0].name != "bytes":
                 f.tokens = True
                 f.container = rng.choice(["tlist", "tlist", "list"])
-        if f.types[0].kind != "object" and self.on("nillable", 0.2) and f.container in ("opt", "list", "tlist"):
+        if f.types[0].kind in ("prim", "enum") and self.on("nillable", 0.2) and f.container in ("opt", "list", "tlist") and not (f.tokens and f.container == "list"):
             f.nillable = True
         if self.on("field_ns", 0.2):
             f.namespace = rng.choice(self.ns_pool + [""])
@@ -761,7 +777,9 @@ class Gen:
         if f.types[0].kind == "enum":
             e = m.enum(f.types[0].name)
             return {"e": [e.name, self.rng.choice(e.members)[0]]}
-        v = gen_leaf(self.rng, m, f.types[0], None, self.ns_pool, union_safe=True)
+        if f.types[0].name in ("XmlDuration", "XmlPeriod"):
+            return None  # UserString subclasses are unhashable: dataclasses refuses them as plain defaults
+        v = gen_leaf(self.rng, m, f.types[0], None, self.ns_pool, union_safe=True, allow_unqualified_qname=False)
         if isinstance(v, str) and v.strip() == "":
             v = "dflt"
         return enc_value(v) if not isinstance(v, (bytes,)) or True else None
@@ -769,45 +787,48 @@ class Gen:
     # ---- namespace consistency fix-up (see DESIGN: classes without Meta.namespace are only kept
     # where every use site makes them inherit one and the same namespace by both routes)
     def fix_namespaces(self, m: Model):
-        for _ in range(10):
-            eff = {}
+        """A class without Meta.namespace takes the namespace handed down on first use; the serializer
+        hands down the namespace of the *element* its parent was written as, the parser the parent's
+        *class* namespace. Such a class is only kept where both agree and every use site hands down
+        the same namespace; otherwise it gets an explicit Meta.namespace."""
+        for _ in range(20):
+            eff, seen = {}, set()
             conflict = None
 
-            def visit(cname, parent_ns):
+            def visit(cname, parent_class_ns, parent_elem_ns, own_elem_ns):
                 nonlocal conflict
+                if conflict or (cname, parent_class_ns, parent_elem_ns, own_elem_ns) in seen:
+                    return
+                seen.add((cname, parent_class_ns, parent_elem_ns, own_elem_ns))
                 c = m.cls(cname)
-                ns = c.namespace if c.has_namespace else parent_ns
-                if cname in eff:
-                    if eff[cname] != ns and not c.has_namespace:
+                if c.has_namespace:
+                    ns = c.namespace or None
+                else:
+                    if parent_class_ns != parent_elem_ns:
                         conflict = cname
+                        return
+                    ns = parent_class_ns
+                if cname in eff and eff[cname] != ns:
+                    conflict = cname
                     return
                 eff[cname] = ns
-                k = c
-                chain = []
-                while k:
-                    chain.append(k)
-                    k = m.cls(k.base) if k.base else None
-                for k in chain:
-                    for f in k.fields:
-                        targets = [t.name for t in f.types if t.kind == "class"] + [t.name for ch in f.choices for t in ch.types if t.kind == "class"]
-                        if not targets:
-                            continue
-                        decl_ns = field_parent_ns(m, c, k, ns)
-                        fns = decl_ns if f.namespace is None else (f.namespace or None)
-                        for tname in targets:
-                            for sub in [tname] + subclasses_of(m, tname):
-                                sc = m.cls(sub)
-                                if not sc.has_namespace and (fns != (ns or None)):
-                                    conflict = sub
-                                    return
-                                visit(sub, ns or None)
-                                if conflict:
-                                    return
+                elem_ns = ns if own_elem_ns == "__class__" else own_elem_ns
+                for decl, f in chain_fields(m, c):
+                    sites = []
+                    if f.xml == "Elements":
+                        for ch in f.choices:
+                            sites += [(t.name, ch.namespace) for t in ch.types if t.kind == "class"]
+                    else:
+                        sites += [(t.name, f.namespace) for t in f.types if t.kind == "class"]
+                    for tname, meta_ns in sites:
+                        fns = field_parent_ns(m, c, decl, ns) if meta_ns is None else (meta_ns or None)
+                        for sub in [tname] + subclasses_of(m, tname):
+                            visit(sub, ns, elem_ns, fns)
 
-            visit(m.root, None)
-            # every class must be visited at least as a potential root of its own documents
+            for c in m.classes:  # every class may be the root of a document of its own
+                if conflict is None:
+                    visit(c.name, None, None, "__class__")
             if conflict is None:
-                self.eff = eff
                 return
             c = m.cls(conflict)
             c.has_meta = True
@@ -894,7 +915,11 @@ def gen_leaf(rng, m: Model, t: T, loaded, ns_pool, union_safe=False, allow_unqua
         e = m.enum(t.name)
         if loaded is None:
             return dec_value(rng.choice(e.members)[1], xsdata_ns())
-        return rng.choice(list(loaded.cls(t.name)))
+        members = list(loaded.cls(t.name))
+        if not allow_unqualified_qname:
+            ok = [mm for mm in members if not (isinstance(mm.value, QName) and not mm.value.text.startswith("{"))]
+            members = ok or members
+        return rng.choice(members)
     n = t.name
     if n == "str":
         return rng.choice(UNION_SAFE_WORDS if union_safe else SAFE_WORDS)
@@ -947,12 +972,16 @@ class InstGen:
         self.ref = Ref(loaded)
         self.field_qname = None
 
-    def leaf(self, f_types, fmt, tokens=False):
+    def leaf(self, f_types, fmt, tokens=False, nonempty=False):
         rng = self.rng
         t = rng.choice(f_types)
         v = gen_leaf(rng, self.m, t, self.L, self.ns_pool, union_safe=len(f_types) > 1 or tokens, allow_unqualified_qname=not self.default_ns)
+        if nonempty and isinstance(v, (str, bytes)) and len(v) == 0:
+            v = "ne" if isinstance(v, str) else b"\x00"
         if tokens and isinstance(v, str):
             v = rng.choice(["tok", "a-b", "x1", "é"])  # tokens contain no whitespace and are non-empty
+        if tokens and isinstance(v, enum.Enum) and isinstance(v.value, str) and (" " in v.value or not v.value):
+            v = rng.choice([mm for mm in type(v) if " " not in mm.value and mm.value])
         return v
 
     def obj(self, cname, depth=0):
@@ -965,12 +994,12 @@ class InstGen:
                 continue
             if f.xml == "Element":
                 self.field_qname = clark(self.ref.field_ns(c, decl, f.namespace, "Element"), self.ref.field_local(c, f))
-            kwargs[f.name] = self.value(f, depth, self.eff.get(cname))
+            kwargs[f.name] = self.value(f, depth, field_parent_ns(self.m, c, decl, self.eff.get(cname)))
         return C(**kwargs)
 
     def pick_class(self, tname, depth):
         subs = subclasses_of(self.m, tname)
-        if subs and self.rng.random() < 0.4:
+        if subs and depth < self.max_depth and self.rng.random() < 0.4:
             return self.rng.choice(subs)
         return tname
 
@@ -985,7 +1014,8 @@ class InstGen:
             n = rng.randrange(1, 4)
             items = [self.leaf(f.types, f.format, tokens=True) for _ in range(n)]
             return items
-        return self.leaf(f.types, f.format)
+        # known findings keep '' / b'' out of Text fields and nillable fields (dedicated probes cover them)
+        return self.leaf(f.types, f.format, nonempty=(f.xml == "Text" or f.nillable))
 
     def any_value(self, depth, qname):
         """A value for an xs:anyType *element* field (object): primitive -> xsi:type'd, or a generic tree
@@ -1035,8 +1065,9 @@ class InstGen:
         deep = depth >= self.max_depth
         if f.xml == "Attributes":
             out = {}
+            allowed = {None: [None], "##any": [None, f"urn:vf:{self.m.salt}:x", class_ns], "##local": [None], "##other": [x for x in (f"urn:vf:{self.m.salt}:x", f"urn:vf:{self.m.salt}:x2") if x != class_ns]}[f.namespace]
             for _ in range(rng.randrange(0, 3)):
-                ns = rng.choice([None, f"urn:vf:{self.m.salt}:x"])
+                ns = rng.choice(allowed)
                 k = rng.choice(["xa", "xb", "x-c"])
                 out[f"{{{ns}}}{k}" if ns else k] = rng.choice(["1", "v v", "", "é"])
             return out
@@ -1050,7 +1081,8 @@ class InstGen:
             q = self.field_qname
             if cont == "opt":
                 return None if rng.random() < 0.35 else self.single(f, depth, q)
-            return [self.single(f, depth, q) for _ in range(rng.randrange(0, 4))]
+            items = [self.single(f, depth, q) for _ in range(rng.randrange(0, 4))]
+            return tuple(items) if cont == "tuple" else items
         if f.tokens:
             if cont == "list":  # list of token lists
                 return [self.single(f, depth) for _ in range(rng.randrange(0, 3))]
@@ -1071,7 +1103,11 @@ class InstGen:
         if cont == "default":
             if rng.random() < 0.4:
                 return dec_value(f.default, self.L.ns)
-            return self.single(f, depth)
+            v = self.single(f, depth)
+            if isinstance(v, (str, bytes)) and len(v) == 0:
+                # XSD: an empty element takes the declared default, so '' is not representable here
+                return dec_value(f.default, self.L.ns)
+            return v
         return self.single(f, depth)  # "one"
 
     def wildcard_value(self, f, depth, class_ns):
